@@ -265,10 +265,21 @@ type xcase struct {
 }
 
 type doc struct {
-	kind   byte // x g
-	layout string
-	suites [][]xcase
-	gcases []gcase
+	kind    byte // x t g
+	layout  string
+	suites  [][]xcase // for kind t: the cases of every suite of the trees, flattened
+	gcases  []gcase
+	trees   []*stree
+	deepest int // kind t: depth (root = 1) of the deepest suite holding a case
+}
+
+func (d *doc) setTrees(ts []*stree) {
+	d.trees = ts
+	d.suites = nil
+	d.deepest = 0
+	for _, t := range ts {
+		t.flatten(1, &d.suites, &d.deepest)
+	}
 }
 
 type gcase struct {
@@ -281,6 +292,13 @@ func (x xcase) String() string {
 }
 
 func (d doc) String() string {
+	if d.kind == 't' {
+		p := make([]string, len(d.trees))
+		for i, t := range d.trees {
+			p[i] = t.String()
+		}
+		return "t:" + d.layout + ":" + strings.Join(p, "")
+	}
 	if d.kind == 'g' {
 		if len(d.gcases) == 0 {
 			return "g:-"
@@ -306,6 +324,149 @@ func (d doc) String() string {
 	return "x:" + d.layout + ":" + strings.Join(ss, "/")
 }
 
+func parseXcases(s string) ([]xcase, bool) {
+	var cs []xcase
+	if s == "-" {
+		return nil, true
+	}
+	for _, c := range strings.Split(s, ";") {
+		p := strings.Split(c, ".")
+		if len(p) != 3 || len(p[2]) != 5 {
+			return nil, false
+		}
+		cl, ok1 := unhx(p[0])
+		nm, ok2 := unhx(p[1])
+		if !ok1 || !ok2 {
+			return nil, false
+		}
+		var n [5]int
+		for i, ch := range p[2] {
+			if ch < '0' || ch > '9' {
+				return nil, false
+			}
+			n[i] = int(ch - '0')
+		}
+		if n[0] > 7 {
+			return nil, false
+		}
+		cs = append(cs, xcase{cl, nm, n[0], n[1], n[2], n[3], n[4]})
+	}
+	return cs, true
+}
+
+// stree is a <testsuite> with its own cases and any number of nested <testsuite> children, to any depth.
+type stree struct {
+	cases []xcase
+	kids  []*stree
+}
+
+func (t *stree) String() string {
+	var b strings.Builder
+	b.WriteString("(")
+	if len(t.cases) == 0 {
+		b.WriteString("-")
+	} else {
+		p := make([]string, len(t.cases))
+		for i, c := range t.cases {
+			p[i] = c.String()
+		}
+		b.WriteString(strings.Join(p, ";"))
+	}
+	for _, k := range t.kids {
+		b.WriteString(k.String())
+	}
+	b.WriteString(")")
+	return b.String()
+}
+
+// flatten lists the cases of every suite of the tree (own cases first, then the children in order) and the
+// depth of the deepest suite that holds a case.
+func (t *stree) flatten(depth int, out *[][]xcase, deepest *int) {
+	*out = append(*out, t.cases)
+	if len(t.cases) > 0 && depth > *deepest {
+		*deepest = depth
+	}
+	for _, k := range t.kids {
+		k.flatten(depth+1, out, deepest)
+	}
+}
+
+func parseTrees(s string) ([]*stree, bool) {
+	type frame struct {
+		txt  strings.Builder
+		node *stree
+	}
+	var stack []*frame
+	var roots []*stree
+	for _, ch := range s {
+		switch ch {
+		case '(':
+			stack = append(stack, &frame{node: &stree{}})
+		case ')':
+			if len(stack) == 0 {
+				return nil, false
+			}
+			top := stack[len(stack)-1]
+			stack = stack[:len(stack)-1]
+			cs, ok := parseXcases(top.txt.String())
+			if !ok {
+				return nil, false
+			}
+			top.node.cases = cs
+			if len(stack) == 0 {
+				roots = append(roots, top.node)
+			} else {
+				p := stack[len(stack)-1]
+				p.node.kids = append(p.node.kids, top.node)
+			}
+		default:
+			if len(stack) == 0 || len(stack[len(stack)-1].node.kids) > 0 {
+				return nil, false
+			}
+			stack[len(stack)-1].txt.WriteRune(ch)
+		}
+	}
+	if len(stack) != 0 || len(roots) == 0 {
+		return nil, false
+	}
+	return roots, true
+}
+
+func renderTree(b *strings.Builder, t *stree, name string, style uint64, indent string) {
+	renderSuiteOpen(b, name, len(t.cases), style, indent)
+	half := len(t.cases)
+	if style&256 != 0 {
+		half = len(t.cases) / 2 // some of the suite's own cases after its child suites
+	}
+	for _, c := range t.cases[:half] {
+		renderCase(b, c, style, indent+" ")
+	}
+	for i, k := range t.kids {
+		renderTree(b, k, name+"."+strconv.Itoa(i), style, indent+" ")
+	}
+	for _, c := range t.cases[half:] {
+		renderCase(b, c, style, indent+" ")
+	}
+	b.WriteString(indent + "</testsuite>\n")
+}
+
+func renderTrees(d doc, style uint64) string {
+	var b strings.Builder
+	if d.layout == "trees" {
+		b.WriteString(`<?xml version="1.0" encoding="UTF-8"?>` + "\n" + `<testsuites name="all">` + "\n")
+		for i, t := range d.trees {
+			renderTree(&b, t, "root"+strconv.Itoa(i), style, " ")
+		}
+		b.WriteString("</testsuites>\n")
+	} else {
+		if style&128 != 0 {
+			b.WriteString(`<?xml version="1.0"?>` + "\n")
+		}
+		renderTree(&b, d.trees[0], "root", style, "")
+	}
+	return b.String()
+}
+
 func parseDoc(t string) (doc, bool) {
 	f := strings.Split(t, ":")
 	switch {
@@ -317,30 +478,9 @@ func parseDoc(t string) (doc, bool) {
 			return d, false
 		}
 		for _, s := range strings.Split(f[2], "/") {
-			var cs []xcase
-			if s != "-" {
-				for _, c := range strings.Split(s, ";") {
-					p := strings.Split(c, ".")
-					if len(p) != 3 || len(p[2]) != 5 {
-						return d, false
-					}
-					cl, ok1 := unhx(p[0])
-					nm, ok2 := unhx(p[1])
-					if !ok1 || !ok2 {
-						return d, false
-					}
-					var n [5]int
-					for i, ch := range p[2] {
-						if ch < '0' || ch > '9' {
-							return d, false
-						}
-						n[i] = int(ch - '0')
-					}
-					if n[0] > 7 {
-						return d, false
-					}
-					cs = append(cs, xcase{cl, nm, n[0], n[1], n[2], n[3], n[4]})
-				}
+			cs, ok := parseXcases(s)
+			if !ok {
+				return d, false
 			}
 			d.suites = append(d.suites, cs)
 		}
@@ -353,6 +493,14 @@ func parseDoc(t string) (doc, bool) {
 				return d, false
 			}
 		}
+		return d, true
+	case len(f) == 3 && f[0] == "t":
+		d := doc{kind: 't', layout: f[1]}
+		ts, ok := parseTrees(f[2])
+		if !ok || (f[1] != "tree" && f[1] != "trees") || (f[1] == "tree" && len(ts) != 1) {
+			return d, false
+		}
+		d.setTrees(ts)
 		return d, true
 	case len(f) == 2 && f[0] == "g":
 		d := doc{kind: 'g'}
@@ -888,7 +1036,12 @@ func runOp(r *lib.Run, line string) {
 		nestedDoc, unknownGo, bareDoc := false, false, false
 		for i, d := range docs {
 			var text string
-			if d.kind == 'x' {
+			if d.kind == 't' {
+				text = renderTrees(d, style>>uint(i))
+				if d.deepest >= 2 {
+					nestedDoc = true
+				}
+			} else if d.kind == 'x' {
 				text = renderXML(d, style>>uint(i))
 				if d.layout == "bare" {
 					bareDoc = true
@@ -933,7 +1086,8 @@ func runOp(r *lib.Run, line string) {
 				case unknownGo && len(got) == len(want):
 					cls = "gotest-unfinished-counted-as-pass"
 				}
-				r.OracleFail(cls, line, "property: "+showA(want)+"  real: "+showA(got))
+				ws, _ := specOf(want)
+				r.OracleFail(cls, line, "property: "+showA(want)+" ("+ws.String()+")  real: "+showA(got)+" ("+realCounts(&s).String()+")")
 			} else {
 				ws, _ := specOf(want)
 				compareCounts(r, line, ws, realCounts(&s), want)
@@ -974,7 +1128,47 @@ func genX(r *lib.Run, wild bool) xcase {
 	return x
 }
 
+// genTree builds a suite tree of the given depth; onlyDeepFail: every failing/erroring case sits in a suite of
+// maximal depth, everything above passes or is skipped.
+func genTree(r *lib.Run, depth int, onlyDeepFail bool) *stree {
+	t := &stree{}
+	for j := r.Rng.Intn(3); j > 0; j-- {
+		x := genX(r, false)
+		if onlyDeepFail && depth > 1 {
+			x.mask, x.rf, x.re = lib.Pick(r.Rng, []int{0, 0, 4}), 0, 0
+		}
+		t.cases = append(t.cases, x)
+	}
+	if depth > 1 {
+		nk := 1 + r.Rng.Intn(2)
+		for k := 0; k < nk; k++ {
+			d := depth - 1
+			if k > 0 {
+				d = 1 + r.Rng.Intn(depth-1)
+			}
+			t.kids = append(t.kids, genTree(r, d, onlyDeepFail))
+		}
+	} else if onlyDeepFail {
+		t.cases = append(t.cases, xcase{cls: "deep.Suite", name: "fails_at_the_bottom", mask: 1 + r.Rng.Intn(2)})
+	}
+	return t
+}
+
 func genDoc(r *lib.Run) doc {
+	if r.Rng.Chance(20) {
+		d := doc{kind: 't', layout: lib.Pick(r.Rng, []string{"tree", "trees"})}
+		n := 1
+		if d.layout == "trees" {
+			n = 1 + r.Rng.Intn(3)
+		}
+		var ts []*stree
+		for i := 0; i < n; i++ {
+			ts = append(ts, genTree(r, 1+r.Rng.Intn(5), r.Rng.Chance(40)))
+		}
+		d.setTrees(ts)
+		r.Count(fmt.Sprintf("doc-xml-tree-depth%d", d.deepest))
+		return d
+	}
 	if r.Rng.Chance(30) {
 		d := doc{kind: 'g'}
 		names := append([]string{}, goNames...)
@@ -1137,6 +1331,34 @@ func main() {
 		}
 		runOp(r, fmt.Sprintf("flake %d %s", r.Rng.Intn(5), strings.Join(p, "|")))
 		r.Count("flake-random")
+	}
+	// (3b) suite chains of depth 1..5 (6 in the thorough tier), with and without a <testsuites> root: one passing case at
+	//      every level and a single failing (or erroring) case at level k, for every k - and no other failure anywhere
+	maxDepth := r.N(5, 6)
+	for depth := 1; depth <= maxDepth; depth++ {
+		for k := depth; k >= 1; k-- {
+			for _, layout := range []string{"tree", "trees"} {
+				for _, mask := range []int{1, 2} {
+					var root, cur *stree
+					for lvl := 1; lvl <= depth; lvl++ {
+						n := &stree{cases: []xcase{{cls: "lvl", name: "ok" + strconv.Itoa(lvl)}}}
+						if lvl == k {
+							n.cases = append(n.cases, xcase{cls: "lvl", name: "bad" + strconv.Itoa(lvl), mask: mask})
+						}
+						if cur == nil {
+							root = n
+						} else {
+							cur.kids = append(cur.kids, n)
+						}
+						cur = n
+					}
+					d := doc{kind: 't', layout: layout}
+					d.setTrees([]*stree{root})
+					runOp(r, "parse "+d.String())
+					r.Count("tree-chain-exhaustive")
+				}
+			}
+		}
 	}
 	// (4) documents
 	for i := 0; i < r.N(2500, 40000); i++ {
